@@ -116,4 +116,10 @@ def PROLOGUE : Str :=
 /-- a whole emitted stream: prologue + root -/
 def render (tbl : NsTable) (root : Node) : Str := PROLOGUE ++ printNode (rawRoot tbl root)
 
+/-- a package part as `contentxml()`, `stylesxml()`, `metaxml()`, `settingsxml()` assemble it: prologue, the wrapper's
+    open tag written with `write_open_tag(0)` (namespace declarations + the wrapper's own attributes), the selected
+    children written with `toXml(1)` / `toXml(2)`, `write_close_tag` -/
+def renderPart (tbl : NsTable) (q : QName) (attrs : List (QName × Str)) (kids : Forest) : Str :=
+  PROLOGUE ++ printOpenClose (qualify tbl q) (nsDecls tbl ++ rawAttrs tbl attrs) (rawOfF tbl kids)
+
 end OdfModel.Xml
